@@ -7,6 +7,7 @@ import (
 	"os"
 	"os/exec"
 	"path/filepath"
+	"strconv"
 	"strings"
 	"time"
 )
@@ -94,10 +95,12 @@ func NewBuildTags(repo string, wantRace bool, tags string) (*Build, error) {
 	if base == "" {
 		base = os.TempDir()
 	}
+	sweepStaleScratch(base)
 	scratch, err := os.MkdirTemp(base, "verif-sim.")
 	if err != nil {
 		return nil, herr("scratch: %v", err)
 	}
+	os.WriteFile(filepath.Join(scratch, "owner.pid"), []byte(strconv.Itoa(os.Getpid())), 0o644)
 	b := &Build{Scratch: scratch, RepoCopy: filepath.Join(scratch, "repo")}
 	ok := false
 	defer func() {
@@ -170,6 +173,35 @@ func NewBuildTags(repo string, wantRace bool, tags string) (*Build, error) {
 	b.BuildSecs = time.Since(t0).Seconds()
 	ok = true
 	return b, nil
+}
+
+// sweepStaleScratch removes scratch directories left behind by a coordinator
+// that was killed (their owner process no longer exists).
+func sweepStaleScratch(base string) {
+	ents, err := os.ReadDir(base)
+	if err != nil {
+		return
+	}
+	for _, e := range ents {
+		if !e.IsDir() || !strings.HasPrefix(e.Name(), "verif-sim.") {
+			continue
+		}
+		dir := filepath.Join(base, e.Name())
+		pb, err := os.ReadFile(filepath.Join(dir, "owner.pid"))
+		if err != nil {
+			if st, serr := os.Stat(dir); serr == nil && time.Since(st.ModTime()) > 12*time.Hour {
+				os.RemoveAll(dir)
+			}
+			continue
+		}
+		pid, _ := strconv.Atoi(strings.TrimSpace(string(pb)))
+		if pid > 0 {
+			if _, err := os.Stat("/proc/" + strconv.Itoa(pid)); err == nil {
+				continue // owner alive
+			}
+		}
+		os.RemoveAll(dir)
+	}
 }
 
 func (b *Build) Close() {
